@@ -563,6 +563,11 @@ func main() {
 		return
 	}
 	kit.Main(func(scs []kit.Scenario, out *kit.Out) error {
+		// every scenario leaves the (unstoppable) settle goroutine of its Accounting behind, and recognising a
+		// blocked goroutine dumps all goroutines: large runs are split over child processes of this binary
+		if settle.ShouldChunk(scs) {
+			return settle.Chunked(scs, out)
+		}
 		for _, sc := range scs {
 			if err := runForced(sc, out); err != nil {
 				return fmt.Errorf("scenario %d: %w", sc.Scn, err)
